@@ -425,10 +425,22 @@ static void seqsObs(Obs &o, const string &root, fileseq::FileSequences &seqs) {
     o.add("cover", hexList(cover));
 }
 
+// the scanned directory is T/d unless the op names it (optional last field)
+static bool dirName(const vector<string> &f, size_t at, const string &root, string &name) {
+    name = "d";
+    if (f.size() <= at) return true;
+    string n = unhx(f[at]);
+    if (n.empty() || n == "d") return true;
+    name = n;
+    return rename((root + "/d").c_str(), (root + "/" + n).c_str()) == 0;
+}
+
 static string opXScan(const vector<string> &f) {
     long mask = std::strtol(f[1].c_str(), nullptr, 10);
     string root;
     bool ok = materialise(parseEntries(f[3]), root);
+    string dn;
+    if (ok) ok = dirName(f, 4, root, dn);
     if (!ok) {
         if (!root.empty()) removeTree(root);
         return "setup=err";
@@ -439,7 +451,7 @@ static string opXScan(const vector<string> &f) {
         if (mask % 2 == 1) opts = opts | fileseq::kOptSingleFiles;
         if ((mask / 2) % 2 == 1) opts = opts | fileseq::kOptHiddenFiles;
         fileseq::FileSequences seqs;
-        fileseq::Status st = fileseq::findSequencesOnDisk(seqs, root + "/d", opts, styleOf(f[2]));
+        fileseq::Status st = fileseq::findSequencesOnDisk(seqs, root + "/" + dn, opts, styleOf(f[2]));
         if (!st) {
             o.add("err", "err");
         } else {
@@ -457,6 +469,8 @@ static string opXScan(const vector<string> &f) {
 static string opXFind(const vector<string> &f) {
     string root;
     bool ok = materialise(parseEntries(f[3]), root);
+    string dn;
+    if (ok) ok = dirName(f, 4, root, dn);
     if (!ok) {
         if (!root.empty()) removeTree(root);
         return "setup=err";
@@ -464,7 +478,7 @@ static string opXFind(const vector<string> &f) {
     Obs o;
     try {
         fileseq::Status st;
-        fileseq::FileSequence s = fileseq::findSequenceOnDisk(root + "/d/" + unhx(f[2]), styleOf(f[1]), &st);
+        fileseq::FileSequence s = fileseq::findSequenceOnDisk(root + "/" + dn + "/" + unhx(f[2]), styleOf(f[1]), &st);
         if (!st) {
             o.add("err", "err");
         } else {
@@ -502,8 +516,8 @@ static string runOp(const string &line) {
         if (f[0] == "x.pad" && f.size() == 3) return opXPad(f);
         if (f[0] == "x.padsize" && f.size() == 3) return opXPadSize(f);
         if (f[0] == "x.seq" && f.size() >= 5) return opXSeq(f);
-        if (f[0] == "x.scan" && f.size() == 4) return opXScan(f);
-        if (f[0] == "x.find" && f.size() == 4) return opXFind(f);
+        if (f[0] == "x.scan" && (f.size() == 4 || f.size() == 5)) return opXScan(f);
+        if (f[0] == "x.find" && (f.size() == 4 || f.size() == 5)) return opXFind(f);
     } catch (const std::exception &e) {
         return "exc=" + sanitize(e.what());
     } catch (...) {
